@@ -15,13 +15,16 @@
     interleavings" means for all interleavings of the model, in which the
     components below run concurrently unless ordered by [hb]. *)
 From Shk Require Import Base.Prelude.
-From Coq Require Import String.
+From Coq Require Import String Ascii.
 Open Scope string_scope.
 
 Inductive kind := R | W.
-Inductive sync := Plain | Atomic | Locked.
+Inductive sync := Plain | Atomic | Locked | Msg.
 
-(** one syntactic access of a tracked field: the cell ("struct.field"), read
+(** [Msg]: a write to a field of a message (an event object handed from one
+    component to others over a channel) after it was built.
+
+    one syntactic access of a tracked field: the cell ("struct.field"), read
     or write, how it is synchronised at the site itself (sync/atomic call;
     inside a function that starts with r.Lock(); defer r.Unlock()), the
     function (or function literal) that contains it and its position *)
@@ -162,7 +165,8 @@ Definition comp_map : list (string * list comp) :=
     ("audition.processAssignments", [Audition]); ("audition.processMoodChange", [Audition]);
     (* the audit loop's variable store (curVals): never handed to another component *)
     ("audition.setAndActivateVar", [Audition]); ("audition.evalExpr", [Audition]); ("audition.evalBool", [Audition]);
-    ("audition.checkExpect", [Audition]);
+    ("audition.checkExpect", [Audition]); ("audition.processFsmStateChange", [Audition]);
+    ("audition.checkActivationPeriodEnd", [Audition]);
     (* the prompter and its lines *)
     ("prompter.startPrompter$spawn1", [Prompter]); ("prompter.prompt", [Prompter]); ("prompter.runScene", [Prompter]);
     ("prompter.signalActChange", [Prompter]); ("prompter.runMoodChange", [Prompter; Line]);
@@ -216,6 +220,33 @@ Definition expected_skeleton : list string :=
 Definition expected_aliases : list (string * string) :=
   [("prompter.numRepeats", "auditionResults.numRepeats")].
 
+(** * Messages.  The event objects the components hand to each other over
+    auditCh / collCh are shared by pointer: the prompter even hands the SAME
+    *moodChange first to the audition and then to the collector.  The
+    discipline: a message is built and completed by the component that
+    produces it, before the send; whoever receives it only reads.  The
+    translator lists every write to a message field outside its composite
+    literal (sync [Msg]); each must lie in a function run only by producers
+    of that message.  (A producer writing after its own send is not excluded
+    by this rule; none of the listed sites does.) *)
+Definition producers : list (string * list comp) :=
+  [ ("actChange", [Prompter]);            (* prompter.signalActChange *)
+    ("actionReport", [Line]);             (* actor.runAction, completed by prompter.runLine *)
+    ("auditableValue", [SpotReader]);     (* spotMgr.detectSignals *)
+    ("auditionReport", [Audition]);       (* audition.checkExpect / checkActivationPeriodEnd / processFsmStateChange *)
+    ("moodChange", [Prompter; Line]);     (* prompter.runMoodChange, from the prompter and from lines *)
+    ("observation", [Audition]);          (* audition.collectEvent *)
+    ("sigEvent", [SpotReader]) ].         (* spotMgr.detectSignals *)
+
+(** "moodChange.ts" -> "moodChange" *)
+Fixpoint struct_of (s : string) : string :=
+  match s with
+  | EmptyString => EmptyString
+  | String c tl => if Ascii.eqb c "."%char then EmptyString else String c (struct_of tl)
+  end.
+
+Definition producers_of (cell : string) : list comp := comps_of_in producers (struct_of cell).
+
 (** * Conflicts *)
 Record esite := { e_site : site; e_comp : comp }.
 
@@ -224,7 +255,7 @@ Definition expand (ss : list site) : list esite :=
 
 Definition is_write (k : kind) : bool := match k with W => true | R => false end.
 Definition sync_eqb (a b : sync) : bool :=
-  match a, b with Plain, Plain | Atomic, Atomic | Locked, Locked => true | _, _ => false end.
+  match a, b with Plain, Plain | Atomic, Atomic | Locked, Locked | Msg, Msg => true | _, _ => false end.
 
 (** two accesses to the same memory, at least one a write, not both atomic
     and not both under the mutex *)
@@ -232,13 +263,15 @@ Definition conflictb (a b : esite) : bool :=
   String.eqb (s_cell (e_site a)) (s_cell (e_site b))
   && (is_write (s_kind (e_site a)) || is_write (s_kind (e_site b)))
   && negb (sync_eqb (s_sync (e_site a)) Atomic && sync_eqb (s_sync (e_site b)) Atomic)
-  && negb (sync_eqb (s_sync (e_site a)) Locked && sync_eqb (s_sync (e_site b)) Locked).
+  && negb (sync_eqb (s_sync (e_site a)) Locked && sync_eqb (s_sync (e_site b)) Locked)
+  && negb (sync_eqb (s_sync (e_site a)) Msg) && negb (sync_eqb (s_sync (e_site b)) Msg).
 
 Definition conflict (a b : esite) : Prop :=
   s_cell (e_site a) = s_cell (e_site b)
   /\ (s_kind (e_site a) = W \/ s_kind (e_site b) = W)
   /\ ~ (s_sync (e_site a) = Atomic /\ s_sync (e_site b) = Atomic)
-  /\ ~ (s_sync (e_site a) = Locked /\ s_sync (e_site b) = Locked).
+  /\ ~ (s_sync (e_site a) = Locked /\ s_sync (e_site b) = Locked)
+  /\ s_sync (e_site a) <> Msg /\ s_sync (e_site b) <> Msg.
 
 Definition hb (a b : comp) : Prop := hbb a b = true.
 
@@ -266,13 +299,20 @@ Definition edge_ok (e : string * string) : bool :=
   let '(f, g) := e in
   negb (mapped g) || has_any (comps_of g) || (mapped f && subset (comps_of f) (comps_of g)).
 
+(** a write to a message field lies in a function that only producers of the
+    message run *)
+Definition msg_ok (s : site) : bool :=
+  negb (sync_eqb (s_sync s) Msg) || (mapped (s_func s) && subset (comps_of (s_func s)) (producers_of (s_cell s))).
+
 Definition str_pair_eqb (a b : string * string) : bool :=
   String.eqb (fst a) (fst b) && String.eqb (snd a) (snd b).
 
 Definition full_check (sites : list site) (calls : list (string * string))
-           (skeleton tracked : list string) (aliases : list (string * string)) : bool :=
+           (skeleton tracked : list string) (aliases : list (string * string)) (messages : list string) : bool :=
   let es := expand sites in
   forallb (fun a => forallb (pair_ok a) es) es
+  && forallb msg_ok sites
+  && list_eqb String.eqb messages (map fst producers)
   && forallb (fun s => mapped (s_func s)) sites
   && forallb edge_ok calls
   && list_eqb String.eqb skeleton expected_skeleton
@@ -286,5 +326,7 @@ Definition bad_pairs (sites : list site) : list (string * string * string) :=
      [(s_cell (e_site a), s_pos (e_site a) ++ " " ++ s_func (e_site a), s_pos (e_site b) ++ " " ++ s_func (e_site b))]) es) es.
 Definition unmapped_sites (sites : list site) : list (string * string) :=
   flat_map (fun s => if mapped (s_func s) then [] else [(s_func s, s_pos s)]) sites.
+Definition bad_message_writes (sites : list site) : list (string * string) :=
+  flat_map (fun s => if msg_ok s then [] else [(s_cell s, s_pos s ++ " " ++ s_func s)]) sites.
 Definition bad_edges (calls : list (string * string)) : list (string * string) :=
   filter (fun e => negb (edge_ok e)) calls.
